@@ -3,7 +3,7 @@ import ast
 from ..engine.model import AnalysisError, dotted
 from ..engine.context import unparse, enclosing_stmt, stores_in, names_in, enclosing_loops, enclosing_trys, in_lock_region
 from ..engine.cfg import walk_no_nested, calls_in, facts_of, no_exc, handler_is_catch_all
-from .c03 import edge_has_fact, flag_fact
+from .c03 import edge_has_fact, edge_implies_any, flag_fact
 
 EXPLANATION = (
     "Thin by nature (stated as such): only the bookkeeping of Daemon.streaming_responses is decided. Decided: an unknown stream "
@@ -18,7 +18,7 @@ EXPLANATION = (
     'Also decided (round 8): PYRO_* environment settings (ITER_STREAM_LINGER=0, ITER_STREAMING=off) are stored as converted, not through a truthiness fallback. '
     "Also decided (round 10): get_next_stream_item returns only what this call's next() produced and refuses only ids that are not in the table; a Daemon that was constructed is not in the shutting-down state. "
     'Also decided (round 9): One __next__ sends one item fetch and communication errors are not retried; nothing in the housekeeping pass can raise (no calls into user iterators). '
-    'Also decided (round 11): With a connected proxy every path through _StreamResultIterator.close sends close_stream; Proxy.__iter__ yields the remote stream outside the handler that selects the index fall-back. '
+    'Also decided (round 11): Only iterators and generators become streams (the entry and every `True, ...` answer of _streamResponse lie on the true edge of that test); with a connected proxy every path through _StreamResultIterator.close sends close_stream; Proxy.__iter__ yields the remote stream outside the handler that selects the index fall-back. '
     "Not decided (most of the property): item order, no loss/duplication, interleavings of next/close/reconnect/housekeeping, "
 )
 
@@ -172,6 +172,22 @@ def run(ctx, R, tier):
                     return False
             return True
         ok = bool(defs) and all(d.kind == "assign" and d.value is not None and only_uuid4(d.value) for d in defs)
+    # a result becomes a stream only if it IS an iterator or generator: the table entry (and the "it is a stream" answer) lie on the true edge of that type test - on any
+    # other edge an ordinary result (a list, a number) would be filed as a stream and the caller handed a stream id instead of its value
+    datap = sr.params[1]
+
+    def is_iterator(atom, pol):
+        if pol is not True or not isinstance(atom, ast.Call):
+            return False
+        fn_ = dotted(atom.func) or ""
+        if fn_ == "isinstance" and len(atom.args) == 2 and unparse(atom.args[0]) == datap and "Iterator" in unparse(atom.args[1]):
+            return True
+        return fn_ in ("inspect.isgenerator",) and atom.args and unparse(atom.args[0]) == datap
+    true_rets = [n for n in scfg.nodes if n.kind == "stmt" and isinstance(n.ast, ast.Return) and isinstance(n.ast.value, ast.Tuple) and n.ast.value.elts and
+                 isinstance(n.ast.value.elts[0], ast.Constant) and n.ast.value.elts[0].value is True]
+    oks = all(scfg.guarded(n, lambda e: edge_implies_any(e, [is_iterator])) for n in list(scfg.nodes_for(st_store[0][0])) + true_rets) and bool(true_rets)
+    R.check(oks, "C10-R3", "_streamResponse|only-iterators-become-streams", "the stream entry and every `True, ...` answer lie on the true edge of the iterator / generator test", sr.loc(st_store[0][0]),
+            "a result that is not an iterator or generator can be turned into a stream: the caller receives a stream id (or nothing) instead of the value the method returned")
     R.check(ok, "C10-R3", "_streamResponse|fresh-id", "the stream id is derived from uuid.uuid4() in this activation", sr.loc(st_store[0][0]),
             "stream ids are not fresh random ids: two streams could share an id / ids could be guessed")
 
